@@ -236,7 +236,7 @@ func TestC06(t *testing.T) {
 	rec := ev.New("C06", "pairs of signed votes/proposals: the second is the first with a drawn set of attributes changed (kind, signer, height, round, vote type, network id in {0,a,b} carried in the nil-vote block id / block-vote part-set app data / proposal field, nil-vs-block, block id, part set id, nts count, timestamp, POL round) or byte-identical; both decoded with DecodeDoubleSignData; non-trivial = exactly one conjunct of the reference predicate is false (pair one step away from a genuine conflict); distinct by the two attribute tuples")
 	defer rec.Flush(t)
 	t.Run("pairs", func(t *testing.T) {
-		ev.Check(t, 2500, 12000, func(rt *rapid.T) {
+		ev.Check(t, 4000, 50000, func(rt *rapid.T) {
 			a := uint32(rapid.SampledFrom([]int{1, 2, 3, 0x7fff, 0xffff, 0x10000, 0xabcdef}).Draw(rt, "nidA"))
 			b := a + uint32(rapid.SampledFrom([]int{1, 2, 0x100, 0x10000}).Draw(rt, "nidB"))
 			nids := []uint32{0, a, b}
